@@ -319,10 +319,16 @@ impl Owner {
     /// Removes this from its state as the thread-local owner and drops it.
     pub fn unset(self) {
         OWNER.with_borrow_mut(|owner| {
-            if owner.as_ref().and_then(|n| n.upgrade()) == Some(self) {
+            if owner.as_ref().and_then(|n| n.upgrade()).as_ref()
+                == Some(&self)
+            {
                 mem::take(owner);
             }
-        })
+        });
+        // `self` is dropped here, after the borrow of the thread-local has ended: if this
+        // is the last handle, its cleanup functions run now, and they may look at the
+        // current owner (`use_context`, `Owner::current()`, `on_cleanup`)
+        drop(self);
     }
 
     /// Returns the current [`SharedContext`], if any.
